@@ -10,3 +10,9 @@ import PysamlModel.Props.C04
 #print axioms C04.C04_audience_factory
 #print axioms C04.C04_destination_factory
 #print axioms C04.C04_recipient_factory
+#print axioms C04.C04_audience_respfactory
+#print axioms C04.C04_destination_respfactory
+#print axioms C04.C04_recipient_respfactory
+#print axioms C04.C04_extension_conditions
+#print axioms C04.C04_extension_conditions_respfactory
+#print axioms C04.C04_no_extension_conditions_client
